@@ -783,14 +783,20 @@ impl<'a, 'src: 'a> Compiler<'a, 'src> {
       Some(mut parent_ptr) => {
         let parent: &mut Compiler<'a, 'src> = unsafe { parent_ptr.as_mut() };
         match parent.resolve_local(name) {
+          // module symbols are read by name whatever declared them, a symbol from an earlier
+          // repl entry is one too
           Some((local, state)) => match state {
-            SymbolState::GlobalInitialized | SymbolState::ModuleInitialized => Some((0, state)),
+            SymbolState::GlobalInitialized
+            | SymbolState::ModuleInitialized
+            | SymbolState::AlreadyInitialized => Some((0, state)),
             _ => Some((self.add_capture(CaptureIndex::Local(local)), state)),
           },
           None => parent
             .resolve_capture(name)
             .map(|(capture, state)| match state {
-              SymbolState::GlobalInitialized | SymbolState::ModuleInitialized => (0, state),
+              SymbolState::GlobalInitialized
+              | SymbolState::ModuleInitialized
+              | SymbolState::AlreadyInitialized => (0, state),
               _ => (self.add_capture(CaptureIndex::Enclosing(capture)), state),
             }),
         }
